@@ -26,6 +26,8 @@ func checkC18(r *Run) {
 	r.Rule("R7", "lines are only reported: no conditional branch of the token package, the lexer, the parser, the tree or the evaluator is fed by Token.LineNumber or by the lexer's line counter", 1)
 	r.Rule("R8", "the parser does not edit tokens: no store into a field of its current or next token (a comment tag that trims the text behind it is not neutral)", 1)
 	tokenImmutableRule(r, "R8")
+	r.Rule("R9", "the identifier scanner steps over letters, digits, '_', '-' and '.' only (no other byte that begins another token is glued to a name)", 1)
+	identifierBytesRuleSSA(r, "R9")
 	evaluatorTablesRule(r, "R6")
 	lineDecisionsRule(r, "R7")
 	lx := analyseLexerArms(r.W)
